@@ -158,7 +158,7 @@ Section ReuseProofs.
 
   (* ---- init_inner / init_script / init_predicate from two arbitrary instances *)
   Lemma init_inner_R (v1 v2 : vm) (t : Tx) (ib : IB) (rb : RB) (g : N) :
-    same_config v1 v2 -> ctx v1 = ctx v2 ->
+    same_config E v1 v2 -> ctx v1 = ctx v2 ->
     res_R (init_inner E v1 t ib rb g) (init_inner E v2 t ib rb g).
   Proof.
     intros (Hs & Hd & Hp & Hpc & He & Hv) Hc. unfold init_inner. cbv zeta.
@@ -173,7 +173,7 @@ Section ReuseProofs.
     intros x5 y5 R5. cbn. rewrite (R_reg _ _ _ REG_SSP R5). apply R_set_reg. exact R5.
   Qed.
 
-  Lemma same_config_set_ctx (v1 v2 : vm) c : same_config v1 v2 -> same_config (set_ctx v1 c) (set_ctx v2 c).
+  Lemma same_config_set_ctx (v1 v2 : vm) c : same_config E v1 v2 -> same_config E (set_ctx v1 c) (set_ctx v2 c).
   Proof. unfold same_config. cbn. tauto. Qed.
 
   Lemma res_R_tx (a b : init_result) : res_R a b ->
@@ -186,7 +186,7 @@ Section ReuseProofs.
   (* C31_init: a transaction initialises ANY two instances with the same untouched fields to
      indistinguishable states (or fails on both with the same error) *)
   Theorem init_script_reuse (v1 v2 : vm) (t : Tx) (ib : IB) :
-    same_config v1 v2 -> res_obs_eq heap_read (init_script E v1 t ib) (init_script E v2 t ib).
+    same_config E v1 v2 -> res_obs_eq heap_read (init_script E v1 t ib) (init_script E v2 t ib).
   Proof.
     intros Hsc. apply res_R_obs. pose proof Hsc as (Hs & _). unfold init_script. rewrite Hs.
     destruct (block_height E (storage v2)) as [bh|]; [|reflexivity].
@@ -203,7 +203,7 @@ Section ReuseProofs.
   Qed.
 
   Theorem init_predicate_reuse (v1 v2 : vm) (c : context) (t : Tx) (g : N) :
-    same_config v1 v2 -> res_obs_eq heap_read (init_predicate E v1 c t g) (init_predicate E v2 c t g).
+    same_config E v1 v2 -> res_obs_eq heap_read (init_predicate E v1 c t g) (init_predicate E v2 c t g).
   Proof.
     intros Hsc. apply res_R_obs. unfold init_predicate.
     destruct (runtime_balances E (ib_default E)) as [rb|]; [|reflexivity].
@@ -222,14 +222,14 @@ Section ReuseProofs.
 
   (* a used instance versus a brand-new one over the same storage, parameters, ecal state *)
   Corollary init_script_vs_fresh (v : vm) (m0 : memory H) (t : Tx) (ib : IB) :
-    debugger v = debugger_default E -> pctx v = PCNone -> verifier v = verifier_default E ->
+    clear_last_state E (debugger v) = clear_last_state E (debugger_default E) -> pctx v = PCNone -> verifier v = verifier_default E ->
     res_obs_eq heap_read (init_script E v t ib)
                          (init_script E (vm_fresh Frame Receipt Slot E m0 (storage v) (interpreter_params v) (ecal_state v)) t ib).
   Proof. intros Hd Hp Hv. apply init_script_reuse. unfold same_config, vm_fresh. cbn. tauto. Qed.
 
   (* ---------------------------------------------------------------- what initialisation leaves alone *)
   Definition okP (P : vm -> Prop) (r : init_result) : Prop := match r with IOk x => P x | _ => True end.
-  Definition untouched (v0 v : vm) : Prop := same_config v0 v.
+  Local Notation untouched := (untouched E).
 
   Lemma push_stack_P (v0 a : vm) d k :
     untouched v0 a -> (forall x, untouched v0 x -> okP (untouched v0) (k x)) -> okP (untouched v0) (push_stack a d k).
@@ -250,10 +250,10 @@ Section ReuseProofs.
     apply Hk. exact Ha.
   Qed.
 
-  (* storage, debugger (incl. its last state), parameters, panic context, ecal state and verifier
-     are exactly as the previous use left them *)
+  (* storage, parameters, panic context, ecal state and verifier are exactly as the previous use
+     left them; so is the debugger, except that its last state has been forgotten *)
   Theorem init_script_untouched (v v' : vm) (t : Tx) (ib : IB) :
-    init_script E v t ib = IOk v' -> same_config v v'.
+    init_script E v t ib = IOk v' -> untouched v v'.
   Proof.
     unfold init_script.
     destruct (block_height E (storage v)) as [bh|]; [|discriminate].
@@ -262,7 +262,7 @@ Section ReuseProofs.
     { unfold init_inner. cbv zeta.
       cbn [interpreter_params tx mem input_contracts storage debugger ctx balances pctx ecal_state verifier set_ctx].
       destruct (owner_of E (interpreter_params v) (prepare_sign E t)); [|exact I].
-      apply push_stack_P; [unfold untouched, same_config; cbn; tauto|].
+      apply push_stack_P; [unfold ReuseModel.untouched; cbn; tauto|].
       intros x1 H1. apply push_stack_P; [exact H1|].
       intros x2 H2. apply to_vm_P; [exact H2|].
       intros x3 H3. apply push_stack_P; [exact H3|].
@@ -295,7 +295,7 @@ Section ReuseProofs.
 
   (* C31: the result of a transaction does not depend on what the instance was used for before *)
   Theorem transact_reuse (Hstep : step_respects_obs) (n : nat) (v1 v2 : vm) (t : Tx) (ib : IB) :
-    same_config v1 v2 -> transact E step n v1 t ib = transact E step n v2 t ib.
+    same_config E v1 v2 -> transact E step n v1 t ib = transact E step n v2 t ib.
   Proof.
     intro Hsc. unfold transact. pose proof (init_script_reuse v1 v2 t ib Hsc) as HI.
     destruct (init_script E v1 t ib) as [x|e x|], (init_script E v2 t ib) as [y|e' y|]; cbn in HI; try tauto.
